@@ -29,4 +29,3 @@ func VerifNewMonitor(config *hc.HealthCheck, hostSet *hostpkg.Set, logger log.Lo
 
 // VerifCheckOnce runs one round of checks over all hosts, without timers.
 func (m *Monitor) VerifCheckOnce() { m.checkHosts() }
-
